@@ -63,9 +63,9 @@ Proof.
   split; intros Hm; rewrite Hm in *; [apply (expect_delivery_nil _ _ _ _ H1)|apply (expect_delivery_nil _ _ _ _ H2)].
 Qed.
 
-(* C14: delivered flits traverse exactly (hop distance - 1) routers *)
+(* C14: every flit is delivered and traverses exactly (hop distance - 1) routers *)
 Definition shortest_on (n : netlist) (nt : net) (s t : ni_inst) (h : hdr) : Prop :=
-  forall u rest, t_out (send n nt s h) = Delivered u rest ->
+  exists u rest, t_out (send n nt s h) = Delivered u rest /\
                  dist n nt (ni_name s) (ni_name t) = Some (S (length (t_rts (send n nt s h)))).
 Definition C14_on (n : netlist) : Prop :=
   forall s t h, In s (n_nis n) -> In t (n_nis n) -> ni_name s <> ni_name t -> hdr_for n s t = Ok h ->
@@ -74,7 +74,8 @@ Definition C14_on (n : netlist) : Prop :=
 Lemma expect_shortest_nil n nt what s t h :
   expect_shortest n nt what s t (send n nt s h) = [] -> shortest_on n nt s t h.
 Proof.
-  unfold expect_shortest, shortest_on. intros H u rest E. rewrite E in H.
+  unfold expect_shortest, shortest_on. intros H. destruct (t_out (send n nt s h)) as [u rest|why at_] eqn:E; [|discriminate].
+  exists u, rest. split; [reflexivity|].
   destruct (dist n nt (ni_name s) (ni_name t)) as [d|]; [|discriminate].
   apply guard_nil in H. apply Nat.eqb_eq in H. congruence.
 Qed.
